@@ -168,3 +168,7 @@ func VerifReplayMain(f func()) {
 func VerifAnd(a, b bool) bool     { return a && b }
 func VerifOr(a, b bool) bool      { return a || b }
 func VerifImplies(a, b bool) bool { return !a || b }
+
+// VerifPanicSite names the innermost repo function in which the last panic caught by VerifPanics
+// was raised (engine only; used to give violations a stable class). Natively "".
+func VerifPanicSite() string { return "" }
